@@ -16,6 +16,10 @@
 //!      same payload afterwards (same manager, after a later append, and through
 //!      a manager that opened the directory); archives with an unused tail make
 //!      the truncation branch run.
+//!   E2. The same judgement in histories with several `ArchiveManager` handles on one
+//!      directory (appends by different handles, handles that look at the
+//!      directory again with `open_all` / `open_archive`, tails from outside):
+//!      live data = every record any handle appended.
 //!   F. Merge end-to-end: populations from the real `SegmentAllocator` on real
 //!      segment files, plan judged and then executed with `move_data`; every live
 //!      object compared at its original and planned location; one segment file
@@ -1761,6 +1765,417 @@ fn run_archive_manager(ctx: &Ctx, rng: &mut Rng, cnt: &mut Cnt) {
 }
 
 // ---------------------------------------------------------------------------
+// part E2: ArchiveManager::compact in histories with several handles on one directory
+// ---------------------------------------------------------------------------
+
+/// One step of a history in which several `ArchiveManager` handles work on the same directory.
+#[derive(Debug, Clone)]
+enum HStep {
+    /// handle `h` appends `n` objects of a size class (0 tiny, 1 small, 2 large, 3 mixed)
+    Append { h: u8, n: u8, class: u8 },
+    /// handle `h` takes note of the directory again: 0 = `open_all`, 1 = `open_archive` per data file
+    Refresh { h: u8, how: u8 },
+    /// a further handle is created on the directory (`open_all`)
+    NewHandle,
+    /// the archive gets an unused zero tail from outside (preallocation, a writer that died after extending)
+    Tail { sel: u8 },
+    /// handle `h` compacts
+    Compact { h: u8 },
+}
+
+impl HStep {
+    fn encode(&self) -> String {
+        match self {
+            HStep::Append { h, n, class } => format!("a{h}:{n}:{class}"),
+            HStep::Refresh { h, how } => format!("r{h}:{how}"),
+            HStep::NewHandle => "n".into(),
+            HStep::Tail { sel } => format!("t{sel}"),
+            HStep::Compact { h } => format!("c{h}"),
+        }
+    }
+    fn decode(s: &str) -> Option<HStep> {
+        let (k, r) = s.split_at(1.min(s.len()));
+        let nums: Vec<u8> = if r.is_empty() { Vec::new() } else { r.split(':').map(|p| p.parse().ok()).collect::<Option<Vec<u8>>>()? };
+        Some(match (k, nums.as_slice()) {
+            ("a", [h, n, class]) => HStep::Append { h: *h, n: *n, class: *class },
+            ("r", [h, how]) => HStep::Refresh { h: *h, how: *how },
+            ("n", []) => HStep::NewHandle,
+            ("t", [sel]) => HStep::Tail { sel: *sel },
+            ("c", [h]) => HStep::Compact { h: *h },
+            _ => return None,
+        })
+    }
+}
+
+#[derive(Debug, Clone)]
+struct HandlesCase {
+    salt: u64,
+    mode: u8,
+    steps: Vec<HStep>,
+}
+
+const MAX_HANDLES: usize = 4;
+
+/// Histories are generated so that a handle appends or compacts only while its view of the archive is
+/// current: it wrote the last record itself, or it (re-)opened the directory after the last change
+/// another handle made. What a handle with an outdated view does to the records of others is not a
+/// compaction question and is never produced.
+fn gen_handles_case(rng: &mut Rng) -> HandlesCase {
+    let salt = rng.next_u64();
+    let mode = rng.below(3) as u8;
+    let mut steps = Vec::new();
+    let mut current = vec![true];
+    let gen_append = |rng: &mut Rng, h: usize| HStep::Append { h: h as u8, n: rng.urange(1, 8) as u8, class: [0, 1, 2, 2, 2, 3][rng.usize_below(6)] };
+    steps.push(gen_append(rng, 0));
+    let n_steps = rng.urange(3, 14);
+    let refresh = |rng: &mut Rng, steps: &mut Vec<HStep>, current: &mut Vec<bool>, h: usize| {
+        steps.push(HStep::Refresh { h: h as u8, how: rng.below(2) as u8 });
+        current[h] = true;
+    };
+    for _ in 0..n_steps {
+        match rng.below(12) {
+            0..=4 => {
+                let h = rng.usize_below(current.len());
+                if !current[h] {
+                    refresh(rng, &mut steps, &mut current, h);
+                }
+                steps.push(gen_append(rng, h));
+                for (i, c) in current.iter_mut().enumerate() {
+                    *c = i == h;
+                }
+            }
+            5 | 6 => {
+                if current.len() < MAX_HANDLES {
+                    steps.push(HStep::NewHandle);
+                    current.push(true);
+                }
+            }
+            7 => steps.push(HStep::Tail { sel: rng.below(4) as u8 }),
+            8 => {
+                // also on a handle whose view is current: taking note again must be harmless
+                let h = rng.usize_below(current.len());
+                refresh(rng, &mut steps, &mut current, h);
+            }
+            _ => {
+                let h = rng.usize_below(current.len());
+                if !current[h] {
+                    refresh(rng, &mut steps, &mut current, h);
+                }
+                steps.push(HStep::Compact { h: h as u8 });
+                // a compaction may replace / shorten the file: the others have to look again
+                for (i, c) in current.iter_mut().enumerate() {
+                    *c = i == h;
+                }
+            }
+        }
+    }
+    // every history ends with a compaction
+    let h = rng.usize_below(current.len());
+    if !current[h] {
+        refresh(rng, &mut steps, &mut current, h);
+    }
+    steps.push(HStep::Compact { h: h as u8 });
+    HandlesCase { salt, mode, steps }
+}
+
+fn handles_detail(c: &HandlesCase) -> Value {
+    json!({"kind": "handles", "salt": c.salt.to_string(), "mode": c.mode, "steps": c.steps.iter().map(HStep::encode).collect::<Vec<_>>()})
+}
+
+/// Several handles on one directory; live data = every record any handle appended. Each `compact()`
+/// is judged like in part E: record bytes on disk before/after, every object that decoded to its payload
+/// before decodes to it afterwards (through the compacting handle, through it after a later append, and
+/// through a fresh handle), bytes reclaimed = shrinkage, "nothing compacted" changes nothing.
+fn run_handles_case(ctx: &Ctx, c: &HandlesCase, cnt: &mut Cnt) {
+    let Ok(tmp) = tempfile::tempdir() else {
+        ctx.inconclusive("tempdir failed");
+        return;
+    };
+    let Ok(rt) = tokio::runtime::Builder::new_current_thread().enable_all().build() else {
+        ctx.inconclusive("tokio runtime");
+        return;
+    };
+    let dir = tmp.path();
+    let (mode_name, mode) = match c.mode % 3 {
+        0 => ("none", CompressionMode::None),
+        1 => ("zlib", CompressionMode::ZLib),
+        _ => ("lz4", CompressionMode::LZ4),
+    };
+    let detail = |extra: Value| json!({"case": handles_detail(c), "compression": mode_name, "witness": extra});
+    let data_files = |dir: &Path| -> Vec<(u16, std::path::PathBuf)> {
+        let mut v: Vec<(u16, std::path::PathBuf)> = std::fs::read_dir(dir)
+            .map(|rd| {
+                rd.filter_map(|e| {
+                    let p = e.ok()?.path();
+                    let name = p.file_name()?.to_str()?.to_string();
+                    let id: u16 = name.strip_prefix("data.").filter(|s| s.len() == 3)?.parse().ok()?;
+                    Some((id, p))
+                })
+                .collect()
+            })
+            .unwrap_or_default();
+        v.sort();
+        v
+    };
+    let snapshot = |dir: &Path| -> HashMap<u16, Vec<u8>> { data_files(dir).into_iter().filter_map(|(id, p)| Some((id, std::fs::read(p).ok()?))).collect() };
+    let total_len = |dir: &Path| -> u64 { data_files(dir).iter().map(|(_, p)| std::fs::metadata(p).map(|m| m.len()).unwrap_or(0)).sum() };
+    let open = |m: &mut ArchiveManager, how: u8| -> bool {
+        if how == 0 {
+            rt.block_on(m.open_all()).is_ok()
+        } else {
+            data_files(dir).iter().all(|(id, p)| m.open_archive(*id, p).is_ok())
+        }
+    };
+
+    let mut handles: Vec<ArchiveManager> = vec![ArchiveManager::with_compression(dir, mode)];
+    // view[h]: the handle appended last itself or (re-)opened after the last change another handle made
+    let mut view_current: Vec<bool> = vec![true];
+    // the handle (re-)opened after another handle had appended, and has not appended since
+    let mut refreshed_after_foreign: Vec<bool> = vec![false];
+    // total archive length when the handle's view was last current, and the growth its last refresh found
+    // the handle has looked at the file (own append or (re-)open) since the last tail from outside: only
+    // then can it know how long the file is, and only then is its bytes-reclaimed figure judged
+    let mut tail_seen: Vec<bool> = vec![true];
+    let mut len_seen: Vec<u64> = vec![0];
+    let mut foreign_growth: Vec<u64> = vec![0];
+    let mut records: Vec<(u16, u32, u32)> = Vec::new();
+    let mut payloads: Vec<Vec<u8>> = Vec::new();
+    let mut obj_no = 0u64;
+    let mut compactions = 0u64;
+    let mut interesting = false;
+
+    for (si, step) in c.steps.iter().enumerate() {
+        match *step {
+            HStep::Append { h, n, class } => {
+                let h = h as usize;
+                if h >= handles.len() || !view_current[h] {
+                    cnt.add("handles.step_skipped(observation)", 1);
+                    continue;
+                }
+                for _ in 0..n {
+                    let mut r = Rng::derive(c.salt, 0x0b1ec7 + obj_no);
+                    obj_no += 1;
+                    let cl = if class == 3 { r.below(3) as u8 } else { class };
+                    let len = match cl {
+                        0 => r.urange(0, 100),
+                        1 => r.urange(100, 10_000),
+                        _ => r.urange(50_000, 250_000),
+                    };
+                    let data = if r.bool() { r.bytes(len) } else { (0..len).map(|i| (i / 97) as u8).collect() };
+                    match handles[h].write_content(&data, true) {
+                        Ok((id, off, size, _)) => {
+                            records.push((id, off, size));
+                            payloads.push(data);
+                        }
+                        Err(_) => cnt.add("handles.write_refused(observation)", 1),
+                    }
+                }
+                cnt.add("handles.op.append", 1);
+                for (i, v) in view_current.iter_mut().enumerate() {
+                    *v = i == h;
+                }
+                refreshed_after_foreign[h] = false;
+                foreign_growth[h] = 0;
+                tail_seen[h] = true;
+                len_seen[h] = total_len(dir);
+            }
+            HStep::Refresh { h, how } => {
+                let h = h as usize;
+                if h >= handles.len() {
+                    cnt.add("handles.step_skipped(observation)", 1);
+                    continue;
+                }
+                if !open(&mut handles[h], how) {
+                    cnt.add("handles.open_failed(observation)", 1);
+                    return;
+                }
+                cnt.add(if how == 0 { "handles.op.refresh.open_all" } else { "handles.op.refresh.open_archive" }, 1);
+                let now = total_len(dir);
+                if !view_current[h] {
+                    refreshed_after_foreign[h] = true;
+                    foreign_growth[h] = now.saturating_sub(len_seen[h]);
+                    cnt.add("handles.refreshes_after_a_change_by_another_handle", 1);
+                } else {
+                    cnt.add("handles.refreshes_with_a_current_view", 1);
+                }
+                view_current[h] = true;
+                tail_seen[h] = true;
+                len_seen[h] = now;
+            }
+            HStep::NewHandle => {
+                if handles.len() >= MAX_HANDLES {
+                    cnt.add("handles.step_skipped(observation)", 1);
+                    continue;
+                }
+                let mut m = ArchiveManager::with_compression(dir, mode);
+                if !open(&mut m, 0) {
+                    cnt.add("handles.open_failed(observation)", 1);
+                    return;
+                }
+                handles.push(m);
+                view_current.push(true);
+                tail_seen.push(true);
+                refreshed_after_foreign.push(false);
+                foreign_growth.push(0);
+                len_seen.push(total_len(dir));
+                cnt.add("handles.op.new_handle", 1);
+            }
+            HStep::Tail { sel } => {
+                let Some((_, path)) = data_files(dir).into_iter().next() else {
+                    cnt.add("handles.step_skipped(observation)", 1);
+                    continue;
+                };
+                let mut r = Rng::derive(c.salt, 0x7a11_0000 + si as u64);
+                let len = std::fs::metadata(&path).map(|m| m.len()).unwrap_or(0);
+                let slack = match sel {
+                    0 => r.range(1, 4096),
+                    1 => len / 3 + r.range(0, 1 << 20),
+                    _ => len.max(1 << 20) + r.range(0, 3 << 20),
+                };
+                if OpenOptions::new().write(true).open(&path).and_then(|f| f.set_len(len + slack)).is_err() {
+                    ctx.inconclusive("cannot extend an archive file");
+                    return;
+                }
+                tail_seen.iter_mut().for_each(|t| *t = false);
+                cnt.add("handles.op.unused_tail_from_outside", 1);
+            }
+            HStep::Compact { h } => {
+                let h = h as usize;
+                if h >= handles.len() || !view_current[h] {
+                    cnt.add("handles.step_skipped(observation)", 1);
+                    continue;
+                }
+                // live objects as the compacting handle serves them BEFORE the compaction
+                let readable: Vec<bool> = records.iter().zip(&payloads).map(|((id, off, size), p)| matches!(handles[h].read_content(*id, *off, *size), Ok(ref d) if d == p)).collect();
+                let n_readable = readable.iter().filter(|r| **r).count() as u64;
+                cnt.add("handles.live_objects_readable_before_compact", n_readable);
+                cnt.add("handles.live_objects_unreadable_before_compact(observation)", readable.len() as u64 - n_readable);
+                let before = snapshot(dir);
+                let lb: u64 = before.values().map(|b| b.len() as u64).sum();
+                let after_refresh = refreshed_after_foreign[h];
+                cnt.add("handles.op.compact", 1);
+                if after_refresh {
+                    cnt.add("handles.compactions_by_a_handle_refreshed_after_foreign_appends", 1);
+                    // the part of the archive the handle only knows from looking again is large
+                    if lb > 1024 * 1024 && foreign_growth[h] * 10 >= lb * 3 {
+                        cnt.add("handles.compactions_after_refresh.foreign_appends>=30%_of_archive>1MiB", 1);
+                        interesting = true;
+                    }
+                } else {
+                    cnt.add("handles.compactions_by_the_last_writer_or_a_fresh_handle", 1);
+                }
+                if handles.len() > 1 {
+                    cnt.add("handles.compactions_with_several_handles_open", 1);
+                }
+                let r = handles[h].compact();
+                compactions += 1;
+                let stats = match r {
+                    Ok(s) => s,
+                    Err(_) => {
+                        cnt.add("handles.compact.error(observation)", 1);
+                        return;
+                    }
+                };
+                let after = snapshot(dir);
+                let la: u64 = after.values().map(|b| b.len() as u64).sum();
+                cnt.add("handles.compact.archives_compacted", stats.archives_compacted as u64);
+                let who = if after_refresh { "handle-refreshed-after-foreign-appends" } else { "handle-with-own-view" };
+                for (id, off, size) in &records {
+                    let Some(b) = before.get(id) else { continue };
+                    let (s, e) = (*off as usize, *off as usize + *size as usize);
+                    if e > b.len() {
+                        cnt.add("handles.record_beyond_file_before_compact(observation)", 1);
+                        continue;
+                    }
+                    if after.get(id).is_none_or(|a| e > a.len() || a[s..e] != b[s..e]) {
+                        ctx.violation(
+                            &format!("C18|ArchiveManager::compact|appended-record-bytes-changed-on-disk|several-handles|{who}"),
+                            "several handles on one directory: after compact() the bytes of an appended record differ from what was on disk before (or are cut off)",
+                            detail(json!({"step": si, "archive": id, "offset": off, "size": size, "file_len_before": b.len(), "file_len_after": after.get(id).map(Vec::len), "archives_compacted": stats.archives_compacted, "bytes_reclaimed": stats.bytes_reclaimed})),
+                        );
+                        return;
+                    }
+                }
+                let mut later_append: Option<((u16, u32, u32), Vec<u8>)> = None;
+                let compare_all = |m: &ArchiveManager, via: &str, cnt: &mut Cnt| -> bool {
+                    for (i, ((id, off, size), p)) in records.iter().zip(&payloads).enumerate() {
+                        if i >= readable.len() || !readable[i] {
+                            continue;
+                        }
+                        match m.read_content(*id, *off, *size) {
+                            Ok(d) if d == *p => cnt.add(&format!("handles.live_objects_compared_after_compact.{via}"), 1),
+                            Ok(d) => {
+                                ctx.violation(&format!("C18|ArchiveManager::compact|live-object-bytes-changed-after-compact|several-handles|{via}"), "several handles on one directory: after compact() a live object decodes to other bytes than before", detail(json!({"step": si, "archive": id, "offset": off, "size": size, "len_before": p.len(), "len_after": d.len()})));
+                                return false;
+                            }
+                            Err(e) => {
+                                ctx.violation(&format!("C18|ArchiveManager::compact|live-object-unreadable-after-compact|several-handles|{via}"), "several handles on one directory: after compact() a live object that was readable before can no longer be read", detail(json!({"step": si, "archive": id, "offset": off, "size": size, "error": e.to_string()})));
+                                return false;
+                            }
+                        }
+                    }
+                    true
+                };
+                if !compare_all(&handles[h], "compacting-handle", cnt) {
+                    return;
+                }
+                if stats.archives_compacted > 0 {
+                    cnt.add("handles.compact.runs_that_truncated_an_archive", 1);
+                    if !tail_seen[h] {
+                        // the file was extended from outside after the handle last looked at it: what
+                        // "truthfully" means for a length the handle never saw is left open
+                        cnt.add(if la <= lb && stats.bytes_reclaimed == lb - la { "handles.compact.tail_not_seen_by_the_handle.reclaimed_equals_shrinkage(observation)" } else { "handles.compact.tail_not_seen_by_the_handle.reclaimed_differs_from_shrinkage(observation)" }, 1);
+                    } else if la > lb || stats.bytes_reclaimed != lb - la {
+                        ctx.violation("C18|ArchiveManager::compact|bytes-reclaimed-differs-from-old-length-minus-new-length|several-handles", "several handles on one directory: compact() reports other bytes reclaimed than the archive files shrank by", detail(json!({"step": si, "reported": stats.bytes_reclaimed, "len_before": lb, "len_after": la})));
+                        return;
+                    }
+                    // the position the compaction leaves behind must not direct the next append onto live data
+                    let mut r = Rng::derive(c.salt, 0xaf7e_0000 + si as u64);
+                    let n_extra = r.urange(1, 3000);
+                    let data = r.bytes(n_extra);
+                    if let Ok((id, off, size, _)) = handles[h].write_content(&data, true) {
+                        if !compare_all(&handles[h], "compacting-handle-after-a-later-append", cnt) {
+                            return;
+                        }
+                        later_append = Some(((id, off, size), data));
+                    }
+                } else if before != after {
+                    ctx.violation("C18|ArchiveManager::compact|archive-files-changed-although-nothing-was-compacted|several-handles", "several handles on one directory: compact() reports no compacted archive but an archive file changed", detail(json!({"step": si, "len_before": lb, "len_after": la})));
+                    return;
+                }
+                // a handle that opens the directory now must be served every object
+                let mut fresh = ArchiveManager::with_compression(dir, mode);
+                if open(&mut fresh, 0) {
+                    if !compare_all(&fresh, "fresh-handle", cnt) {
+                        return;
+                    }
+                } else {
+                    cnt.add("handles.open_failed(observation)", 1);
+                }
+                if let Some((rec, data)) = later_append {
+                    records.push(rec);
+                    payloads.push(data);
+                }
+                for (i, v) in view_current.iter_mut().enumerate() {
+                    *v = i == h;
+                }
+                len_seen[h] = total_len(dir);
+            }
+        }
+    }
+    let hsh = c.steps.iter().fold(mix64(fnv64(b"handles"), c.salt), |a, s| mix64(a, fnv64(s.encode().as_bytes())));
+    if compactions > 0 && (handles.len() > 1 || interesting) {
+        ctx.eval_nontrivial(hsh);
+    } else {
+        ctx.eval();
+    }
+    cnt.add("handles.histories", 1);
+    cnt.add(&format!("handles.compression.{mode_name}"), 1);
+    cnt.add(&format!("handles.handles_per_history.{}", handles.len()), 1);
+    cnt.add("handles.records_appended", records.len() as u64);
+}
+
+// ---------------------------------------------------------------------------
 // replay
 // ---------------------------------------------------------------------------
 
@@ -1808,6 +2223,14 @@ fn replay(ctx: &Ctx, d: &Value) {
             };
             run_merge_case(ctx, &c, &mut cnt);
         }
+        "handles" => {
+            let c = HandlesCase {
+                salt: case.get("salt").and_then(Value::as_str).and_then(|s| s.parse().ok()).unwrap_or(0),
+                mode: case.get("mode").and_then(Value::as_u64).unwrap_or(0) as u8,
+                steps: case.get("steps").and_then(Value::as_array).map(|a| a.iter().filter_map(|o| HStep::decode(o.as_str()?)).collect()).unwrap_or_default(),
+            };
+            run_handles_case(ctx, &c, &mut cnt);
+        }
         "journal" => {
             let ops: Vec<JOp> = case.get("ops").and_then(Value::as_array).map(|a| a.iter().filter_map(|o| JOp::decode(o.as_str()?)).collect()).unwrap_or_default();
             run_journal_case(ctx, &ops, &mut cnt);
@@ -1837,7 +2260,7 @@ fn replay(ctx: &Ctx, d: &Value) {
 fn main() {
     let ctx = Ctx::init("C18", "exploration");
     ctx.set_rule(
-        "A: one case = (file of 0..=600 KiB position-dependent bytes, span set, buffer budget) given to extract_compact_segment on a real file; span sets come from shape generators (adjacent from 0, adjacent after a gap, gapped, first span after 0, one span larger than the I/O buffer preceded by a smaller gap, zero-length spans, single spans, overlapping variants derived from valid sets: identical / contained / one shared byte / partial, beyond-EOF, empty list), input order shuffled in half of the cases, budgets {0,128Ki,1Mi,4Mi,200000,256Ki}; non-trivial = at least one live byte has to move or an overlap has to be refused. B: validate_spans / DataSpan::overlaps on the same generators. C: CompactionFileMover::move_data / compact_in_place with random (src,dst,len) against a splice/memmove model; non-trivial = len>0. D: one case = (0..=40 segments with write positions around 0, threshold*size-1/0/+1, full, random; frozen/thawed mixes; segment sizes 2..2^30; thresholds 0..1.5) given to plan_archive_merge and judged by an interval model per destination seeded with [0,write_position); non-trivial = plan has at least one move. E: ArchiveManager::compact after real appends (None/ZLib/LZ4 objects, half of the archives with an unused tail produced outside the manager so that the truncation runs, then a second manager opened on the directory): every object's decoded bytes before/after. F: one case = (allocation/freeze/thaw script for the real SegmentAllocator on real segment files, reload or not, threshold, segment size, buffer budget): the merge plan is judged by the interval model, executed with move_data and every live object compared at its original and planned location; one segment per case is defragmented with extract_compact_segment; non-trivial = non-empty plan. G: one case = a history of record_segment/save/load/new/remove on the extract-compact journal; non-trivial = at least two recorded segments. B': validate_spans on sets with offsets beyond 32 bits, classified in 128-bit arithmetic. distinct = hash of the concrete case parameters.",
+        "A: one case = (file of 0..=600 KiB position-dependent bytes, span set, buffer budget) given to extract_compact_segment on a real file; span sets come from shape generators (adjacent from 0, adjacent after a gap, gapped, first span after 0, one span larger than the I/O buffer preceded by a smaller gap, zero-length spans, single spans, overlapping variants derived from valid sets: identical / contained / one shared byte / partial, beyond-EOF, empty list), input order shuffled in half of the cases, budgets {0,128Ki,1Mi,4Mi,200000,256Ki}; non-trivial = at least one live byte has to move or an overlap has to be refused. B: validate_spans / DataSpan::overlaps on the same generators. C: CompactionFileMover::move_data / compact_in_place with random (src,dst,len) against a splice/memmove model; non-trivial = len>0. D: one case = (0..=40 segments with write positions around 0, threshold*size-1/0/+1, full, random; frozen/thawed mixes; segment sizes 2..2^30; thresholds 0..1.5) given to plan_archive_merge and judged by an interval model per destination seeded with [0,write_position); non-trivial = plan has at least one move. E: ArchiveManager::compact after real appends (None/ZLib/LZ4 objects, half of the archives with an unused tail produced outside the manager so that the truncation runs, then a second manager opened on the directory): every object's decoded bytes before/after. F: one case = (allocation/freeze/thaw script for the real SegmentAllocator on real segment files, reload or not, threshold, segment size, buffer budget): the merge plan is judged by the interval model, executed with move_data and every live object compared at its original and planned location; one segment per case is defragmented with extract_compact_segment; non-trivial = non-empty plan. G: one case = a history of record_segment/save/load/new/remove on the extract-compact journal; non-trivial = at least two recorded segments. B': validate_spans on sets with offsets beyond 32 bits, classified in 128-bit arithmetic. E2: one case = a history of 1..4 ArchiveManager handles on one directory (append by a handle, a further handle opened, a handle looking at the directory again with open_all / open_archive, unused tail from outside, compact by a handle; a handle appends or compacts only while its view is current, i.e. it wrote last or re-opened after the last foreign change): every compact() is judged against all records any handle appended; non-trivial = a compaction with several handles open. distinct = hash of the concrete case parameters.",
     );
     ctx.assume("the harness' interval classification of span sets (two positive-length spans sharing a byte = overlapping) is the meaning of 'overlapping' in the statement; zero-length spans inside a span are left open");
     ctx.assume("the file system of the temp dir returns what was written (page cache), no fault injection in this property");
@@ -1857,8 +2280,9 @@ fn main() {
     let n_merge: usize = ctx.pick(1_500, 12_000);
     let n_journal: usize = ctx.pick(3_000, 20_000);
     let n_huge: usize = ctx.pick(20_000, 100_000);
+    let n_handles: usize = ctx.pick(160, 800);
     let next = AtomicUsize::new(0);
-    let total = n_extract + n_validate + n_mover + n_plan + n_am + n_merge + n_journal + n_huge;
+    let total = n_extract + n_validate + n_mover + n_plan + n_am + n_merge + n_journal + n_huge + n_handles;
     std::thread::scope(|s| {
         for _ in 0..threads {
             let next = &next;
@@ -1871,12 +2295,14 @@ fn main() {
                 let seg_path = tmp.path().join("segment.data");
                 let mut cnt = Cnt::default();
                 loop {
-                    // blocks of 16 consecutive indices per grab; each index has its own PRNG stream
-                    let base = next.fetch_add(16, Ordering::Relaxed);
+                    // blocks of 4 consecutive indices per grab (the multi-handle histories at the end of the
+                    // index space are heavy: small blocks spread them over all threads); each index has its
+                    // own PRNG stream, so the block size does not influence what is generated
+                    let base = next.fetch_add(4, Ordering::Relaxed);
                     if base >= total {
                         break;
                     }
-                    for ix in base..(base + 16).min(total) {
+                    for ix in base..(base + 4).min(total) {
                         let mut rng = ctx.rng(1_000_000 + ix as u64);
                         // interleave the parts so that a cut-off run has seen all of them
                         if ix < n_extract {
@@ -1897,8 +2323,11 @@ fn main() {
                         } else if ix < n_extract + n_validate + n_mover + n_plan + n_am + n_merge + n_journal {
                             let ops = gen_journal_case(&mut rng);
                             run_journal_case(ctx, &ops, &mut cnt);
-                        } else {
+                        } else if ix < n_extract + n_validate + n_mover + n_plan + n_am + n_merge + n_journal + n_huge {
                             run_huge_span_case(ctx, &mut rng, &mut cnt);
+                        } else {
+                            let c = gen_handles_case(&mut rng);
+                            run_handles_case(ctx, &c, &mut cnt);
                         }
                     }
                 }
@@ -1941,6 +2370,14 @@ fn main() {
         "journal.removes",
         "validate_spans.huge_offsets.valid_accepted",
         "validate_spans.huge_offsets.overlap_refused",
+        // round 4: several handles on one directory
+        "handles.compactions_by_a_handle_refreshed_after_foreign_appends",
+        "handles.compactions_after_refresh.foreign_appends>=30%_of_archive>1MiB",
+        "handles.compactions_by_the_last_writer_or_a_fresh_handle",
+        "handles.op.refresh.open_all",
+        "handles.op.refresh.open_archive",
+        "handles.live_objects_compared_after_compact.compacting-handle",
+        "handles.live_objects_compared_after_compact.fresh-handle",
     ];
     for k in need {
         if ctx.get_obs(k) == 0 {
